@@ -32,6 +32,7 @@ type Engine struct {
 	MaxPaths   int
 	curFn      *ssa.Function
 	curCt      *Contract
+	curEntry   *State // entry state of the function under verification: old() in its loop clauses
 	TrustedUse map[string]bool
 	Intrinsics map[string]bool
 	Abstract   map[string]bool
